@@ -144,7 +144,7 @@ class Zygote(object):
     e.g. lazily built grammars are warm) that forks one throw-away grandchild per run.  Every
     run routed through it starts from the identical post-init state."""
 
-    def __init__(self, check):
+    def __init__(self, check, kind=None):
         self.check = check
         c2z_r, c2z_w = os.pipe()
         z2c_r, z2c_w = os.pipe()
@@ -153,7 +153,10 @@ class Zygote(object):
             try:
                 os.close(c2z_w)
                 os.close(z2c_r)
-                check.zygote_init()
+                if kind is None:
+                    check.zygote_init()
+                else:
+                    check.zygote_init(kind)       # a variant of the pre-initialised state (e.g. a full cache)
                 while True:
                     hdr = _read_exact(c2z_r, 4)
                     if not hdr:
@@ -238,9 +241,10 @@ def _isolated(check, case, timeout_s=None):
         return run_forked(check.execute, case, t)
     if check.isolation == 'fork' or os.environ.get('VERIF_FORCE_FORK'):
         if hasattr(check, 'zygote_init') and check.wants_zygote(case):
-            z = _ZYGOTE.get(os.getpid())
+            kind = check.zygote_kind(case) if hasattr(check, 'zygote_kind') else None
+            z = _ZYGOTE.get((os.getpid(), kind))
             if z is None:
-                z = _ZYGOTE[os.getpid()] = Zygote(check)
+                z = _ZYGOTE[(os.getpid(), kind)] = Zygote(check, kind)
             return z.run(case)
         return run_forked(check.execute, case, t)
     return check.execute(case)
@@ -718,6 +722,8 @@ def main(check, argv):
     print('# %s: %d runs (%d non-trivial, %d distinct non-trivial), %d %s, %.1fs, %d runs/h'
           % (check.pid, agg.runs, agg.nontrivial, len(agg.distinct_nt), agg.steps, check.step_unit,
              wall, int(agg.runs / wall * 3600) if wall else 0))
+    if agg.viols:
+        print('# %d violating runs in the sweep (at most 4 witnesses per clause are minimised and reported)' % len(agg.viols))
     if agg.errors:
         for e in agg.errors[:5]:
             print('HARNESS-ERROR %s' % e)
